@@ -18,6 +18,36 @@ pub mod server;
 pub mod sharding;
 pub mod stats;
 pub mod tls;
+#[cfg(feature = "verif")]
+pub mod verif;
+
+/// Trace hook (see `verif.rs`); expands to nothing unless the `verif` feature is on.
+#[cfg(feature = "verif")]
+#[macro_export]
+macro_rules! vtrace {
+    ($ev:expr $(, $k:literal => $v:expr)* $(,)?) => {
+        $crate::verif::emit($ev, $crate::verif::json!({ $($k: $v),* }))
+    };
+}
+#[cfg(not(feature = "verif"))]
+#[macro_export]
+macro_rules! vtrace {
+    ($($t:tt)*) => {};
+}
+
+/// Named delay point (see `verif.rs`); expands to nothing unless the `verif` feature is on.
+#[cfg(feature = "verif")]
+#[macro_export]
+macro_rules! vdelay {
+    ($point:expr) => {
+        $crate::verif::delay($point).await
+    };
+}
+#[cfg(not(feature = "verif"))]
+#[macro_export]
+macro_rules! vdelay {
+    ($($t:tt)*) => {};
+}
 
 /// Format chrono::Duration to be more human-friendly.
 ///
@@ -39,4 +69,18 @@ pub fn format_duration(duration: &chrono::Duration) -> String {
         "{}d {}:{}:{}.{}",
         days, hours, minutes, seconds, milliseconds
     )
+}
+
+/// Blocking named delay point for non-async call sites.
+#[cfg(feature = "verif")]
+#[macro_export]
+macro_rules! vdelay_sync {
+    ($point:expr) => {
+        $crate::verif::delay_sync($point)
+    };
+}
+#[cfg(not(feature = "verif"))]
+#[macro_export]
+macro_rules! vdelay_sync {
+    ($($t:tt)*) => {};
 }
